@@ -355,7 +355,18 @@ def _judge_history(out: dict, jobs: list[tuple], rng: random.Random, case: dict)
             v.append({"symptom": "model-differs-from-one-shot",
                       "detail": fp_diff(_model_as_fp(out["final_model"]),
                                         _model_as_fp(out["one_model"]))})
-    if fin_ok and one_ok:
+    if fin_ok and one_ok and case.get("model_only"):
+        # job sets beyond fragment F (counts > 1): the semantic oracle does not cover branch
+        # counts, so only the models (exact) and the set of events carrying a branch count
+        # are compared
+        import re
+        ba = sorted(re.findall(r":([^;:]*?),BCNT", out["final_text"]))
+        bb = sorted(re.findall(r":([^;:]*?),BCNT", out["one_text"]))
+        out["bcnt_events"] = len(bb)
+        if ba != bb:
+            v.append({"symptom": "branch-count-events-differ-from-one-shot",
+                      "detail": {"history": ba, "one_shot": bb}})
+    elif fin_ok and one_ok:
         a, _pa, ia = puml.parse(out["final_text"])
         b, _pb, ib = puml.parse(out["one_text"])
         if set(ia["names"]) != set(ib["names"]):
